@@ -40,6 +40,18 @@ def candidates():
                 se = rng.choice([-40, -31, -20, -8, 0])
                 d_ = "%s s<%s,%d> -> s<%s,%d> convert" % (m[1], sn, se, dn, se + shift)
                 out.setdefault(d_, ("conv", "c08::rconv<c08::%s,%s,%d,%s,%d,0>" % (m[0], sc, se, dc, se + shift)))
+    # decimal scaling: scaled -> coarser scaled (both routes) and floating -> scaled
+    for s, d, se, de in [(INTS[4], INTS[4], -1, 0), (INTS[4], INTS[2], -3, -1), (INTS[6], INTS[4], -2, 1), (INTS[2], INTS[2], -4, -2), (INTS[5], INTS[5], -2, 0), (INTS[6], INTS[6], -9, -3),
+                         (INTS[0], INTS[4], -2, -1), (INTS[7], INTS[5], -4, 2), (INTS[3], INTS[1], -3, -1), (INTS[4], INTS[6], 0, 3)]:
+        for m in MODES:
+            for route in (0, 1):
+                d_ = "%s s<%s,%d,r10> -> s<%s,%d,r10> %s" % (m[1], s[1], se, d[1], de, "convert" if route == 0 else "wrapped")
+                out.setdefault(d_, ("conv", "c08::rconv<c08::%s,%s,%d,%s,%d,%d,10>" % (m[0], s[0], se, d[0], de, route)))
+    for f in FLOATS:
+        for d, de in [(INTS[4], -1), (INTS[4], -2), (INTS[6], -6), (INTS[2], -1), (INTS[5], -3), (INTS[4], 1), (INTS[6], 2)]:
+            for m in MODES:
+                d_ = "%s %s -> s<%s,%d,r10> convert" % (m[1], f[1], d[1], de)
+                out.setdefault(d_, ("float", "c08::rfloat<c08::%s,%s,%s,%d,0,10>" % (m[0], f[0], d[0], de)))
     for f in FLOATS[1:]:
         for d in INTS[4:]:
             for m in MODES:
@@ -63,6 +75,9 @@ def load():
 def critical(k):
     """kernels that every quick run contains: parameters sitting on a representation boundary of the operation itself"""
     d = k["desc"].split()
+    if ",r10>" in k["desc"]:
+        # decimal scaling: one kernel in three (fixed selection), all of them in thorough
+        return sum(map(ord, k["desc"])) % 3 == 0
     if k["kind"] == "conv":
         # elastic source wider than a shift that equals the digit count of a built-in storage type (7/15/31/63): the divisor 2^shift
         # is the first value that does not fit that type
@@ -117,6 +132,17 @@ def round_fr(q, mode):
     return fl
 
 
+def exact_in(q, mant):
+    """is the rational q exactly representable with a mant-bit significand (exponent range not considered)?"""
+    if q == 0:
+        return True
+    d = q.denominator
+    if d & (d - 1):
+        return False
+    n = abs(q.numerator)
+    return n.bit_length() - ((n & -n).bit_length() - 1) <= mant
+
+
 def judge_floats(res, job):
     kd = {r["id"]: r for r in job.records if r.get("t") == "kd"}
     tall = {}
@@ -132,7 +158,7 @@ def judge_floats(res, job):
         if v is None:
             t["ood"] += 1
             continue
-        q = v / Fr(2) ** k["exp"]
+        q = v / Fr(k.get("radix", 2)) ** k["exp"]
         # sources so small that the floating scale multiplication itself underflows are outside the domain (assumption)
         tiny = Fr(2) ** {24: -126, 53: -1022, 64: -16382}[k["mant"]]
         if v != 0 and (abs(v) < tiny or abs(q) < tiny):
@@ -142,6 +168,13 @@ def judge_floats(res, job):
         if want < int(k["lo"]) or want > int(k["hi"]):
             t["ood"] += 1
             continue
+        if k.get("radix", 2) != 2:
+            # decimal (non-binary) scaling of a binary floating value: from * Radix^-E is itself rounded by the floating multiplication
+            # (double rounding, surveyed as with C04); judged only where that product is exact in the source format
+            if not exact_in(q, k["mant"]):
+                t["classes"]["scaled_source_inexact_in_source_format(not judged)"] = t["classes"].get("scaled_source_inexact_in_source_format(not judged)", 0) + 1
+                t["ood"] += 1
+                continue
         t["judged"] += 1
         t["nt"] += 1
         fl = q.numerator // q.denominator
